@@ -248,6 +248,9 @@ pub struct FrameMangler {
     pub arg: u64,
     acc: Vec<u8>,
     frame_no: u64,
+    /// "trunc": the bytes cut off the attacked frame and its plaintext length, until the bytes
+    /// that slide into their place are known
+    cut: Option<(Vec<u8>, u64)>,
     held: Option<Vec<u8>>,
     /// (fired, plaintext bytes in the frames that passed untouched before the attack)
     pub state: Arc<Mutex<(bool, u64)>>,
@@ -256,7 +259,7 @@ pub struct FrameMangler {
 impl FrameMangler {
     pub fn new(kind: &str, k: u64, arg: u64) -> (FrameMangler, Arc<Mutex<(bool, u64)>>) {
         let state = Arc::new(Mutex::new((false, 0)));
-        (FrameMangler { kind: kind.to_string(), k, arg, acc: Vec::new(), frame_no: 0, held: None, state: state.clone() }, state)
+        (FrameMangler { kind: kind.to_string(), k, arg, acc: Vec::new(), frame_no: 0, cut: None, held: None, state: state.clone() }, state)
     }
 }
 
@@ -306,9 +309,20 @@ impl Mangler for FrameMangler {
                         // keep the length prefix, cut the body short, then go on with the next frame
                         let keep = 2 + (self.arg as usize % len.max(1));
                         out.extend(&frame[..keep]);
+                        self.cut = Some((frame[keep..].to_vec(), len.saturating_sub(16) as u64));
                     }
                 }
                 continue;
+            }
+            if let Some((removed, plain)) = self.cut.take() {
+                // the first bytes of what follows complete the shortened frame: if they happen to
+                // equal what was cut off, the attacked frame reaches the reader bit-identical
+                // (it is the following frame that is damaged)
+                if frame.len() >= removed.len() && frame[..removed.len()] == removed[..] {
+                    st.1 += plain;
+                } else if frame.len() < removed.len() {
+                    self.cut = Some((removed, plain));
+                }
             }
             if let Some(h) = self.held.take() {
                 out.extend(frame);
